@@ -23,6 +23,13 @@ partial def entry (fs : Array (Rot × Vec)) : P E := do
       let ps ← many n pose
       let (a, b) := fs.getD key (1, 0)
       pure (.leaf { pos := ps.map (·.1), ori := ps.map (·.2), F := fun x => a • x + b })
+  | "J" => do
+      -- a Cuboid evaluated for J (or M in units of 1/mu_0): fs[key] = (diag(dimension), polarization)
+      let key ← nat
+      let n ← nat
+      let ps ← many n pose
+      let (a, b) := fs.getD key (1, 0)
+      pure (.leaf { pos := ps.map (·.1), ori := ps.map (·.2), F := indicatorField (boxBody ⟨a.r1.x, a.r2.y, a.r3.z⟩) b })
   | "C" => do
       let k ← nat
       pure (.coll (← many k (entry fs)))
